@@ -1,9 +1,12 @@
 import Drv.Browser
+import Drv.Diag
 open Lean
 
 def dispatch (model : String) (j : Json) : Except String Json :=
   match model with
   | "browser" => Drv.Browser.run j
+  | "diag" => Drv.Diag.run j
+  | "diagreads" => Drv.Diag.runReads j
   | _ => throw s!"bad-model {model}"
 
 partial def loop (h : IO.FS.Stream) (out : IO.FS.Stream) : IO Unit := do
